@@ -149,7 +149,7 @@ Proof.
     destruct Hinv as [F N C W P S]. unfold pipeline in *. rewrite Ew in *. cbn [held] in *.
     rewrite app_nil_r in *.
     set (id := if q_id r =? 0 then next_id s else q_id r).
-    set (o := mkOFrame (mkFrame (q_ver r) (q_typ r) id (q_len r) (q_tag r) IOpaque) (Some c)).
+    set (o := stamp_o cfg (version s) (mkOFrame (mkFrame (q_ver r) (q_typ r) id (q_len r) (q_tag r) IOpaque) (Some c))).
     assert (Hnotass : ~ In c (map fst (assigned s))).
     { intros Hin. apply in_map_iff in Hin. destruct Hin as ([c0 i0] & E & Hin). cbn in E; subst.
       destruct (ci_assigned cfg s Hcore c i0 Hin) as (p & Hp & Htd). rewrite Hc in Hp. inversion Hp; subst. destruct Htd. }
@@ -195,12 +195,12 @@ Proof.
     destruct (writer s) as [| | |o| | | |] eqn:Ew; try assumption.
     destruct Hinv as [F N C W P S]. unfold pipeline in *. rewrite Ew in *. cbn [held] in *.
     destruct W as (tail & Hw & Ht). cbn in Ht. subst tail. rewrite app_nil_r in Hw.
-    set (o' := stamp_o cfg (version s) o).
+    set (o' := o).
     assert (Hsr : srcs [o'] = srcs [o]) by reflexivity.
     assert (Hfo : forall x, In x (out s ++ [o']) -> req_frame_ok (callers s) (assigned s) x).
     { intros x Hin. apply in_app_or in Hin. destruct Hin as [Hin|[Hin|[]]].
       - apply F. apply in_or_app. now left.
-      - subst x. apply stamp_ok. apply F. apply in_or_app. right. now left. }
+      - subst x. apply F. apply in_or_app. right. now left. }
     assert (Hcov : forall c0, In c0 (map fst (assigned s)) -> In c0 (srcs (out s ++ [o'])) \/ False).
     { intros c0 Hin. destruct (C c0 Hin) as [H|H]; [|discriminate]. left.
       rewrite srcs_app in *. now rewrite Hsr. }
@@ -233,7 +233,7 @@ Proof.
       * intros o0 Hin. apply F. apply in_or_app. now left.
       * rewrite srcs_app in N. eapply NoDup_app_keep_l; eauto.
       * intros c0 Hin. now right.
-      * exists [CPartial (stamp_o cfg (version s) o) false k]. split; [now rewrite Hw|]. right. left. eauto.
+      * exists [CPartial o false k]. split; [now rewrite Hw|]. right. left. eauto.
     + destruct (k <? f_len (o_frame o)); [|exact Hcopy].
       destruct W as (tail & Hw & Ht). cbn in Ht. subst tail.
       constructor; unfold pipeline; st_simpl_goal; cbn [held]; rewrite ?app_nil_r; try (intros; discriminate); try assumption.
